@@ -237,12 +237,46 @@ def generate():
            "if self.single and self._slaves:\n    return True\nelse:\n    return slave in self._slaves")
     expect(cx, cx.func(SV, "slaves"), "return list(self._slaves.keys())")
 
+    # ---- defaults: Defaults.ZeroMode, ModbusSlaveContext.__init__, the create() factories
+    zm = cst.class_attr("Defaults", "ZeroMode")
+    if zm is None or not isinstance(zm, ast.Constant) or not isinstance(zm.value, bool):
+        cst.fail(cst.cls("Defaults"), "Defaults.ZeroMode is not a boolean literal")
+    D["c_ctx_default_zero"] = coq_z(int(zm.value))
+    expect(cx, cx.func(CX, "__init__"),
+           "self.store = dict()\n"
+           "self.store['d'] = kwargs.get('di', ModbusSequentialDataBlock.create())\n"
+           "self.store['c'] = kwargs.get('co', ModbusSequentialDataBlock.create())\n"
+           "self.store['i'] = kwargs.get('ir', ModbusSequentialDataBlock.create())\n"
+           "self.store['h'] = kwargs.get('hr', ModbusSequentialDataBlock.create())\n"
+           "self.zero_mode = kwargs.get('zero_mode', Defaults.ZeroMode)")
+    fn = st.func(SEQ, "create")
+    b = body(fn)
+    ok = False
+    if len(b) == 1 and isinstance(b[0], ast.Return) and isinstance(b[0].value, ast.Call) \
+            and ast.unparse(b[0].value.func) == "klass" and len(b[0].value.args) == 2:
+        a0, a1 = b[0].value.args
+        if isinstance(a1, ast.BinOp) and isinstance(a1.op, ast.Mult) and ast.unparse(a1.left) in ("[0]", "[0x00]"):
+            D["c_create_addr"] = coq_z(core.const_int(st, a0))
+            D["c_create_size"] = coq_z(core.const_int(st, a1.right))
+            ok = True
+    if not ok:
+        st.fail(fn, "sequential create(): expected `return klass(<addr>, [0x00] * <n>)`")
+    fn = st.func(SP, "create")
+    b = body(fn)
+    if not (len(b) == 1 and ast.unparse(b[0]) == "return klass([0] * %s)" % D["c_create_size"].strip("()")):
+        st.fail(fn, "sparse create(): expected `return klass([0x00] * <same n>)`")
+    expect(st, st.func(SEQ, "__init__"),
+           "self.address = address\n"
+           "if hasattr(values, '__iter__'):\n    self.values = list(values)\nelse:\n    self.values = [values]\n"
+           "self.default_value = self.values[0].__class__()")
+
     out = [core.HEADER, "From PM.theories Require Import Store.\n",
            "Definition code : store_code := {|"]
     fields = ["c_seq_validate", "c_seq_get_lo", "c_seq_get_hi", "c_seq_set_lo", "c_seq_set_hi",
               "c_sp_validate_reject", "c_sp_validate_lo", "c_sp_validate_hi", "c_sp_get_lo", "c_sp_get_hi",
               "c_sp_set_key", "c_ctx_validate_addr", "c_ctx_get_addr", "c_ctx_set_addr", "c_fx_mapper",
-              "c_srv_default_unit", "c_srv_set_ok", "c_srv_del_ok"]
+              "c_srv_default_unit", "c_srv_set_ok", "c_srv_del_ok",
+              "c_ctx_default_zero", "c_create_addr", "c_create_size"]
     out.append(";\n".join("  %s := %s" % (f, D[f]) for f in fields))
     out.append("|}.\n")
     return {"GenStore.v": "\n".join(out)}
